@@ -105,7 +105,12 @@ func (e *Engine) execInstr(st *State, b *ssa.BasicBlock, idx int, in ssa.Instruc
 		return true
 	case *ssa.Alloc:
 		el := x.Type().(*types.Pointer).Elem()
-		if x.Heap {
+		_, isFuncVar := el.Underlying().(*types.Signature)
+		// a variable of function type that escapes only because a closure captures it (a callback parameter used
+		// inside an inner closure) stays a local cell: in the box heap its value would be forgotten at the first loop
+		// head that stores any function value, and the callback could then not be executed (seeded change C09_m3
+		// showed closestPrecedingNode's callback was never run)
+		if x.Heap && !isFuncVar {
 			_, isArr := el.Underlying().(*types.Array)
 			_ = isArr
 			v := e.allocObject(st, el, x.Comment)
